@@ -16,7 +16,7 @@ import time
 
 VERIF = os.path.dirname(os.path.dirname(os.path.abspath(__file__)))
 REPO = os.environ.get("ZERV_VERIF_REPO", "/repo")
-CACHE = os.path.join(VERIF, ".cache")
+CACHE = os.environ.get("ZERV_VERIF_CACHE") or os.path.join(VERIF, ".cache")
 TARGET = os.path.join(CACHE, "target")
 BIN = os.path.join(CACHE, "bin")
 
@@ -102,7 +102,17 @@ def ensure(verbose=True):
         ):
             return res
         t0 = time.time()
-        lockfile = os.path.join(VERIF, "probe", "Cargo.lock")
+        probe_dir = os.path.join(VERIF, "probe")
+        if REPO != "/repo":
+            # alternate repository (tools/eval_seeded.py --parallel): a private copy of the probe crate pointing at it
+            probe_dir = os.path.join(CACHE, "probe")
+            os.makedirs(os.path.join(probe_dir, "src"), exist_ok=True)
+            with open(os.path.join(VERIF, "probe", "Cargo.toml")) as f:
+                toml = f.read().replace('"/repo"', '"%s"' % REPO).replace('"/repo/src/main.rs"', '"%s/src/main.rs"' % REPO)
+            with open(os.path.join(probe_dir, "Cargo.toml"), "w") as f:
+                f.write(toml)
+            shutil.copyfile(os.path.join(VERIF, "probe", "src", "main.rs"), os.path.join(probe_dir, "src", "main.rs"))
+        lockfile = os.path.join(probe_dir, "Cargo.lock")
         shutil.copyfile(os.path.join(REPO, "Cargo.lock"), lockfile)
         env = dict(os.environ)
         env.update(CARGO_NET_OFFLINE="true", CARGO_TARGET_DIR=TARGET)
@@ -111,7 +121,7 @@ def ensure(verbose=True):
         if tc:
             env["RUSTUP_TOOLCHAIN"] = tc
         cmd = ["cargo", "build", "--release", "--offline", "--bins"]
-        r = subprocess.run(cmd, cwd=os.path.join(VERIF, "probe"), env=env, capture_output=True, text=True)
+        r = subprocess.run(cmd, cwd=probe_dir, env=env, capture_output=True, text=True)
         if r.returncode != 0:
             raise BuildError("cargo build failed:\n" + r.stderr[-6000:])
         tmp = out + ".tmp%d" % os.getpid()
